@@ -21,6 +21,7 @@
 package locking
 
 import (
+	"runtime"
 	"sync"
 	"unsafe"
 )
@@ -78,4 +79,107 @@ func verifGoid() int64 {
 		return verifGoidSlow()
 	}
 	return *(*int64)(unsafe.Add(verifGetg(), verifGoidOffset))
+}
+
+// verifGetBP returns the frame pointer register of its caller (locking_verif_goid_amd64.s).
+func verifGetBP() unsafe.Pointer
+
+var (
+	verifFPOnce sync.Once
+	verifFPOK   bool
+)
+
+// verifWalk fills st with the return addresses and frame identities of the callers of its caller, innermost first,
+// after dropping `skip` frames (skip 0 starts with the function that called the caller of verifWalk). It follows the
+// frame pointer chain (every Go function with a frame keeps one on amd64) and stays inside the stack bounds found in
+// the runtime's g (first two words: stack.lo, stack.hi). A frame is identified by the distance of its frame
+// pointer from the top of the stack, which does not change when the runtime moves the stack.
+// Switched on only after verifFPProbe has compared the result with runtime.Callers.
+//
+//go:nocheckptr
+//go:noinline
+func verifWalk(skip int, st *verifStack) {
+	st.n = 0
+	verifFPOnce.Do(verifFPProbe)
+	if !verifFPOK {
+		return
+	}
+	verifWalkRaw(skip+2, st)
+}
+
+// verifWalkRaw: frame 0 is the caller of verifWalkRaw.
+//
+//go:nocheckptr
+//go:noinline
+func verifWalkRaw(skip int, st *verifStack) {
+	st.n = 0
+	g := verifGetg()
+	lo, hi := *(*uintptr)(g), *(*uintptr)(unsafe.Add(g, 8))
+	fp := verifGetBP()
+	for i := 0; st.n < verifFPDepth; i++ {
+		a := uintptr(fp)
+		if a < lo || a+16 > hi || a&7 != 0 {
+			return
+		}
+		pc := *(*uintptr)(unsafe.Add(fp, 8))
+		next := *(*unsafe.Pointer)(fp)
+		if pc == 0 {
+			return
+		}
+		// pc is an address inside the function whose frame pointer is next
+		if i >= skip {
+			if uintptr(next) < lo || uintptr(next) > hi {
+				return
+			}
+			st.pcs[st.n], st.ids[st.n] = pc, hi-uintptr(next)
+			st.n++
+		}
+		if uintptr(next) <= a {
+			return
+		}
+		fp = next
+	}
+}
+
+//go:noinline
+func verifFPProbeC(pcs []uintptr, st *verifStack) int {
+	n := runtime.Callers(1, pcs)
+	verifWalkRaw(0, st)
+	return n
+}
+
+//go:noinline
+func verifFPProbeB(pcs []uintptr, st *verifStack) int { return verifFPProbeC(pcs, st) + 0 }
+
+//go:noinline
+func verifFPProbeA(pcs []uintptr, st *verifStack) int { return verifFPProbeB(pcs, st) + 0 }
+
+// verifFPProbe: the frame pointer walk is used only if, on a chain of three functions that are not inlined, it is inside
+// the stack bounds read from g and returns the same return addresses as runtime.Callers with strictly growing frames.
+//
+//go:nocheckptr
+func verifFPProbe() {
+	g := verifGetg()
+	if g == nil {
+		return
+	}
+	lo, hi := *(*uintptr)(g), *(*uintptr)(unsafe.Add(g, 8))
+	bp := uintptr(verifGetBP())
+	if lo == 0 || hi <= lo || hi-lo > 1<<32 || bp < lo || bp >= hi {
+		return
+	}
+	var st verifStack
+	pcs := make([]uintptr, 8)
+	n := verifFPProbeA(pcs, &st)
+	// st: [0] inside C (another call site than Callers'), [1] inside B, [2] inside A, [3] inside this function
+	if n < 4 || st.n < 4 {
+		return
+	}
+	if st.pcs[1] != pcs[1] || st.pcs[2] != pcs[2] {
+		return
+	}
+	if !(st.ids[0] > st.ids[1] && st.ids[1] > st.ids[2] && st.ids[2] > st.ids[3]) {
+		return
+	}
+	verifFPOK = true
 }
